@@ -381,6 +381,46 @@ def sast_django_json_response_type(style: int, args: int, decoy: int, layout: in
     return fin(_sast("django-json-response-type", style, args, decoy, layout))
 
 
+def hard_math_isclose(style: int, args: int, decoy: int, layout: int) -> bool:
+    """fix-math-isclose (detector-less: the transformer finds its own sites) on the selector-built family of harness/hardsast.py
+    (import style x argument list x surroundings x layout): the documented edit and nothing else - token delta inside
+    the documented one, arguments kept in order (secure-tempfile: suffix / prefix / dir carried over under their own
+    names into NamedTemporaryFile(.., delete=False)), other statements unchanged, output compiles, no unresolved name.
+    post: _
+    """
+    return fin(_sast("fix-math-isclose", style, args, decoy, layout))
+
+
+def hard_timezone_utcnow(style: int, args: int, decoy: int, layout: int) -> bool:
+    """timezone-aware-datetime (detector-less: the transformer finds its own sites) on the selector-built family of harness/hardsast.py
+    (import style x argument list x surroundings x layout): the documented edit and nothing else - token delta inside
+    the documented one, arguments kept in order (secure-tempfile: suffix / prefix / dir carried over under their own
+    names into NamedTemporaryFile(.., delete=False)), other statements unchanged, output compiles, no unresolved name.
+    post: _
+    """
+    return fin(_sast("timezone-aware-datetime", style, args, decoy, layout))
+
+
+def hard_timezone_fromtimestamp(style: int, args: int, decoy: int, layout: int) -> bool:
+    """timezone-aware-datetime/fromtimestamp (detector-less: the transformer finds its own sites) on the selector-built family of harness/hardsast.py
+    (import style x argument list x surroundings x layout): the documented edit and nothing else - token delta inside
+    the documented one, arguments kept in order (secure-tempfile: suffix / prefix / dir carried over under their own
+    names into NamedTemporaryFile(.., delete=False)), other statements unchanged, output compiles, no unresolved name.
+    post: _
+    """
+    return fin(_sast("timezone-aware-datetime/fromtimestamp", style, args, decoy, layout))
+
+
+def hard_secure_tempfile(style: int, args: int, decoy: int, layout: int) -> bool:
+    """secure-tempfile (detector-less: the transformer finds its own sites) on the selector-built family of harness/hardsast.py
+    (import style x argument list x surroundings x layout): the documented edit and nothing else - token delta inside
+    the documented one, arguments kept in order (secure-tempfile: suffix / prefix / dir carried over under their own
+    names into NamedTemporaryFile(.., delete=False)), other statements unchanged, output compiles, no unresolved name.
+    post: _
+    """
+    return fin(_sast("secure-tempfile", style, args, decoy, layout))
+
+
 def planted_drop_arg(spec: List[Tuple[int, int]]) -> bool:
     """Self-test: a replace that drops an unrelated keyword argument must be refuted.
     pre: len(spec) <= 2
@@ -420,6 +460,7 @@ SPEC = {
         "HTTPSConnectionModifier.updated_args / count_positional_args",
         "the complete real pipelines of use-defusedxml, harden-pickle-load, https-connection, subprocess-shell-false (ImportedCallModifier / NameResolutionMixin / import add-remove) on selector-built modules",
         "the complete real transformer chains of 15 detector-driven hardening codemods (requests-verify, add-requests-timeouts, harden-pyyaml, harden-ruamel, jwt-decode-verify, enable-jinja2-autoescape, safe-lxml-parser-defaults, safe-lxml-parsing, secure-random, secure-flask-cookie, sandbox-process-creation, url-sandbox, upgrade-sslcontext-tls, limit-readline, django-json-response-type) with one result placed on the vulnerable call",
+        "the complete real pipelines of the detector-less fix-math-isclose, timezone-aware-datetime (utcnow, utcfromtimestamp) and secure-tempfile on the same family",
     ],
     "bounds": {
         "quick": "calls with <= 3 arguments (thorough 4): per argument keyword selector {positional, verify, timeout, other} and star (none, *, **) / '=' spacing selector, libcst-valid orderings without repeated keywords; 1-2 NewArgs with symbolic add_if_missing",
@@ -433,7 +474,7 @@ SPEC = {
         "documented deltas of the detector-driven family are transcribed from src/core_codemods/docs/*.md as upper bounds on the NAME / NUMBER / STRING token multiset difference",
     ],
     "stubs": ["self (object carrying only make_new_arg)", "cst.parse_expression memoisation"],
-    "outside": ["the semgrep rules themselves (which calls are reported)", "hardening codemods outside the two whole-pipeline families (django settings codemods, upgrade-sslcontext-minimum-version, flask session configuration, timezone-aware-datetime, fix-math-isclose)", "argument pools beyond 3-4 shapes per codemod (positional / keyword / star / nested call)"],
+    "outside": ["the semgrep rules themselves (which calls are reported)", "hardening codemods outside the whole-pipeline families (django settings codemods, upgrade-sslcontext-minimum-version, flask session configuration / csrf, graphql introspection); secure-tempfile with non-literal arguments (the transformer raises: the file is reported failed, C10)", "argument pools beyond 3-4 shapes per codemod (positional / keyword / star / nested call)"],
     "xh": [
         Xh("replace_args_only_named", 400, 1200),
         Xh("add_arg_and_targets", 200, 600),
@@ -458,6 +499,10 @@ SPEC = {
         Xh("sast_jwt_decode_verify", 200, 400),
         Xh("sast_harden_ruamel", 200, 400),
         Xh("sast_django_json_response_type", 200, 400),
+        Xh("hard_math_isclose", 200, 400),
+        Xh("hard_timezone_utcnow", 200, 400),
+        Xh("hard_timezone_fromtimestamp", 200, 400),
+        Xh("hard_secure_tempfile", 200, 400),
         Xh("planted_drop_arg", 60, 120, twin=False, expect="refuted"),
     ],
 }
